@@ -535,6 +535,58 @@ def gen_ctx_cases(seed, n, start_id=0):
     return out
 
 
+# C06: every syntactic context a JSX expression can occupy; {E} / {F} are JSX expressions
+SCOPE_CTX = [
+    "const v = {E};\n", "export default () => {E};\n", "function f1(q = {E}) { return q }\n",
+    "function f2() { if (a) { return {E} } return {F} }\n",
+    "class W1 { field = {E}; get acc() { return {F} } set acc(v) { b = {E} } static s = {F}; m() { return {E} } }\n",
+    "g({E}, function () { return 1 });\n", "a = {E};\n", "for (const i of [1]) { b = {E}; }\n",
+    "while (a) { { const z = {E}; } break }\n", "const f3 = (p) => {E};\n", "const f4 = (p = {E}) => p;\n",
+    "const o1 = { m() { return {E} }, get g() { return {F} }, k: () => {E} };\n",
+    "try { b = {E} } catch (e) { b = {F} } finally { }\n", "label: { b = {E}; }\n",
+    "switch (a) { case 1: b = {E}; break; default: { b = {F} } }\n",
+    "export const w3 = {E}, w4 = {F};\n", "async function af() { return await {E} }\n",
+    "function* gf() { yield {E} }\n", "const cond = a ? {E} : {F};\n", "b = a && {E};\n",
+    "const nest = () => () => { const q = {E}; return function () { return {F} } };\n",
+    "if (a) b = {E}; else b = {F};\n", "do { b = {E} } while (0);\n", "({E});\n",
+    "const arr = [{E}, () => {F}];\n", "foo = {E};\nval = {F};\n",
+    "class W2 extends Foo { constructor() { super(); this.x = {E} } static { b = {F} } }\n",
+]
+SCOPE_SPECIAL = [
+    "<Comp>{fn()}</Comp>", "<Comp>{a}</Comp>", "<NS.Item>{foo}</NS.Item>", "<Comp>{g(1)}{h()}</Comp>", "<>{a}<b>t</b></>",
+    "<div on={{ click: fn }} />", "<input v-model={val} />", "<Comp v-model={foo.bar} />", "<div v-show={a} v-custom={b} />",
+    "<U>{y}</U>", "<Comp>{() => <b>{fn()}</b>}</Comp>", "<Comp>{fn(<i>{g()}</i>)}</Comp>", "<Foo>{val}</Foo>",
+]
+COLLIDE = ["", "", "let _slot = 0, _isSlot = 1;\n", "const _createVNode = 2; function _a() {}\n",
+           "var _Fragment2 = 3, _slot2 = 4, _foo = 5, _val = 6;\n", "function _createTextVNode() {} const _mergeProps = 0;\n"]
+
+
+def gen_scope_cases(seed, n, start_id=0):
+    out = []
+    for i in range(n):
+        g = Gen(Rng(seed * 500009 + i))
+        r = g.r
+        def ex():
+            return r.pick(SCOPE_SPECIAL) if r.chance(1, 2) else g.elem(2)
+        parts = [PROLOGUE, r.pick(COLLIDE)]
+        # every third module is a single statement with a single special element: a helper or a
+        # temporary is then the ONLY thing the transform adds
+        single = (i % 3 == 2)
+        if single:
+            t = r.pick(SCOPE_CTX)
+            g.f("sctx:%d" % SCOPE_CTX.index(t))
+            parts.append(t.replace("{E}", r.pick(SCOPE_SPECIAL)).replace("{F}", "null"))
+        for _ in range(0 if single else 1 + r.below(4)):
+            t = r.pick(SCOPE_CTX)
+            g.f("sctx:%d" % SCOPE_CTX.index(t))
+            parts.append(t.replace("{E}", ex()).replace("{F}", ex()))
+        opts = json.loads(g.options())
+        opts.pop("resolveType", None)
+        out.append({"id": start_id + i, "src": "".join(parts), "syntax": "jsx", "options": json.dumps(opts),
+                    "stream": "scope", "keep_json": True, "feat": sorted(g.feat)})
+    return out
+
+
 def gen_elem_cases(seed, n, start_id=0):
     out = []
     for i in range(n):
@@ -928,5 +980,5 @@ if __name__ == "__main__":
     seed = int(sys.argv[1]); n = int(sys.argv[2])
     kind = sys.argv[3] if len(sys.argv) > 3 else "module"
     for c in (gen_types_cases(seed, n) if kind == "types" else gen_site_cases(seed, n) if kind == "site"
-              else gen_ctx_cases(seed, n) if kind == "ctx" else gen_elem_cases(seed, n)):
+              else gen_ctx_cases(seed, n) if kind == "ctx" else gen_scope_cases(seed, n) if kind == "scope" else gen_elem_cases(seed, n)):
         print(json.dumps(c))
